@@ -70,7 +70,8 @@ ATOL = 1e-6
 
 N_X = [-2.0, 0.0, 0.5, 70.0]
 N_LOC = [-2.0, 0.0, 0.5, 70.0]
-N_SCALE = [0.01, 1.0, 5.0]
+# (0.001: below the tolerance under which a *fitted* variance is refused as collapsed - a density is a density at every scale)
+N_SCALE = [0.01, 1.0, 5.0, 0.001]
 B_P = [0.01, 0.3, 0.5, 0.99]
 W_NU = [0.5, 5.0, 40.0]
 W_RHO = [0.5, 1.0, 2.5]
@@ -952,6 +953,7 @@ def _param_sets(spec, ne, a, tier, reduced=False):
         noises = [None]
     priors = list(itertools.product([md["tau_mean"][0], 60.5], [md["tau_std"][0], 0.5], [md["xi_std"][0], 0.05])) if not joint else \
         [(md["tau_mean"][0], md["tau_std"][0], md["xi_std"][0]), (60.5, 0.5, 0.05)]
+    priors.append((md["tau_mean"][0], 0.002, 0.001))  # very tight priors (scales below 3e-3)
     offsets = [0.0, 0.5, -2.0, 70.0] if not joint else [0.0, -2.0]
     if reduced:  # catalogue cohorts: the latent grid is rotated over the individuals instead
         priors, offsets = [priors[0], priors[-1]], offsets[:2]
